@@ -17,6 +17,7 @@ re-assigns every entry it changes in place (repairs 090b314 / a97f9c4 made it so
 -/
 import SmppVerif.Lemmas.Persist
 import SmppVerif.Gen.Site
+import SmppVerif.Gen.AssignBack
 
 namespace SmppVerif.Props.C19
 open SmppVerif SmppVerif.Persist SmppVerif.Lemmas.Persist
@@ -90,6 +91,12 @@ example : (crashStates ({} : FS) (saveTrace [102] [1, 1, 5])).length = 8 := by d
     the `with` block (flush and close) and only then renames — the system-call order `saveTrace` models -/
 theorem save_step_order : Gen.Site.save = ["open", "json_encode", "write", "end-with", "replace"] := by decide
 
+/-- TIE TO THE SOURCE (regenerated on every run, Gen/AssignBack.lean): every statement of SimpleCorrelator that changes an object taken from a persisted store in place (status of a segment, last response / receipt, the collected inbound segments) is followed, in the same method, by an assignment back to that store which is not nested in a conditional the change is not in - PersistingDict saves on assignment only, so a change without it would reach the memory copy but not the file -/
+theorem in_place_changes_assigned_back :
+    Gen.AssignBack.sites.all (fun s => s.2.2.2) = true ∧ 5 ≤ Gen.AssignBack.sites.length ∧
+    (["expired", "get", "get_delivery", "put", "put_delivery_segmented"].all fun f => (Gen.AssignBack.sites.map (·.1)).contains f) = true := by
+  decide
+
 end SmppVerif.Props.C19
 
 #print axioms SmppVerif.Props.C19.save_crash_atomic
@@ -100,3 +107,4 @@ end SmppVerif.Props.C19
 #print axioms SmppVerif.Props.C19.inplace_write_not_atomic
 #print axioms SmppVerif.Props.C19.inplace_change_lost
 #print axioms SmppVerif.Props.C19.save_step_order
+#print axioms SmppVerif.Props.C19.in_place_changes_assigned_back
